@@ -86,13 +86,13 @@ Theorem C05_stream_edge_read_after_write : forall (T : Type) (N : NumOps T) dep 
 Proof. intros T N dep fd. exact (stream_edge_raw N dep fd). Qed.
 Print Assumptions C05_stream_edge_read_after_write.
 
-(* (c) entries: every reported loop-carried dependency is `cycle_entry` of such a stream cycle -- latency = the weights along the
-   cycle added left to right from 0, members = its instructions (line = position mod n + 1) with the weight of the edge leaving
-   them, sorted -- and every stream cycle is represented by a reported entry with the same sorted (line, latency) list *)
+(* (c) entries: every reported loop-carried dependency is `cycle_entry` of such a stream cycle -- members = its instructions
+   (line = position mod n + 1) with the weight of the edge leaving them, sorted; latency = the members' weights added left to right
+   from 0 in the order of that sorted list (so a function of the member list, whichever position the cycle is entered at) -- and every stream cycle is represented by a reported entry with the same sorted (line, latency) list *)
 Theorem C05_lcd_entries_are_stream_cycles : forall (T : Type) (N : NumOps T) dep fwd pidx fd (k : list (line (T:=T))) e,
   In e (lcd_entries N dep fwd pidx fd (renumber k)) ->
   exists i q, i < List.length k /\ spath T (stream_E N dep fwd pidx fd (body N k)) i (i + List.length k) q /\
-              e = (fold_left (nadd N) (map snd q) (n0 N),
+              e = (sum_pairs N (sort_pairs N (map (fun xw => (fst xw mod List.length k + 1, snd xw)) q)),
                    sort_pairs N (map (fun xw => (fst xw mod List.length k + 1, snd xw)) q)).
 Proof. intros T N dep fwd pidx fd. exact (lcd_entries_are_stream_cycles N dep fwd pidx fd). Qed.
 Print Assumptions C05_lcd_entries_are_stream_cycles.
